@@ -87,6 +87,8 @@ type FnEnc struct {
 	implicitInv []Clause
 	cellClos map[*ssa.Alloc]*ClosInfo
 	curCallRecv ssa.Value
+	curCallArgs []ssa.Value
+	fvVals   map[*ssa.FreeVar]RV
 	compT    map[string]types.Type
 	qctx     string // context name for quantifier ids
 	flags    []string // assumption switches, in order of declaration
@@ -96,7 +98,7 @@ type FnEnc struct {
 func (c *Ctx) newFnEnc(fn *ssa.Function, dry bool) *FnEnc {
 	fe := &FnEnc{c: c, fn: fn, key: c.keyOf(fn), dry: dry, declared: map[string]bool{}, regs: map[ssa.Value]RV{}, oblCount: map[string]int{},
 		lits: map[string]string{}, loopOf: map[*ssa.BasicBlock]*Loop{}, fnWrites: newWriteSet(), epochPar: map[int][]epochParent{}, compSort: map[string]string{},
-		params: map[string]RV{}, havocs: map[string]bool{}, assumed: map[string]bool{}, sweep: true, deferArgs: map[*ssa.Defer][]RV{}, callOrd: map[string]int{}, cellClos: map[*ssa.Alloc]*ClosInfo{}, compT: map[string]types.Type{}}
+		params: map[string]RV{}, havocs: map[string]bool{}, assumed: map[string]bool{}, sweep: true, deferArgs: map[*ssa.Defer][]RV{}, callOrd: map[string]int{}, cellClos: map[*ssa.Alloc]*ClosInfo{}, fvVals: map[*ssa.FreeVar]RV{}, compT: map[string]types.Type{}}
 	fe.sorts = newSorts(func(s string) { fe.lines = append(fe.lines, s) })
 	if p := c.pkgOf(fn); p != nil {
 		fe.pkgPath = p.Pkg.Path()
@@ -851,7 +853,18 @@ func (fe *FnEnc) flagSettings(o *Obl) []string {
 				on = true
 			}
 			// Key:label matches call.Key@n.label (and its conjunct switches) for every call occurrence
-			if k, l, ok := strings.Cut(u, ":"); ok && strings.HasPrefix(f, "call."+k+"@") {
+			if k, l, ok := strings.Cut(u, ":"); ok && k == "*" && strings.HasPrefix(f, "call.") {
+				// any callee: call.<Key>@<n>.<label>[.conjunct]
+				if i := strings.Index(f, "@"); i >= 0 {
+					rest := f[i+1:]
+					if j := strings.Index(rest, "."); j >= 0 {
+						rest = rest[j+1:]
+						if rest == l || strings.HasPrefix(rest, l+".") {
+							on = true
+						}
+					}
+				}
+			} else if ok && strings.HasPrefix(f, "call."+k+"@") {
 				rest := f[len("call."+k+"@"):]
 				if i := strings.Index(rest, "."); i >= 0 {
 					rest = rest[i+1:]
@@ -1001,6 +1014,23 @@ func (fe *FnEnc) astFile(pos token.Pos) *ast.File {
 		}
 	}
 	return nil
+}
+
+// callSrc: the source text of the call expression at pos (whole expression, for text-anchored cut points)
+func (fe *FnEnc) callSrc(pos token.Pos) string {
+	f := fe.astFile(pos)
+	if f == nil {
+		return ""
+	}
+	path, _ := astutil.PathEnclosingInterval(f, pos, pos)
+	for _, n := range path {
+		if c, ok := n.(*ast.CallExpr); ok {
+			var sb strings.Builder
+			_ = printer.Fprint(&sb, fe.c.fset, c)
+			return strings.Join(strings.Fields(sb.String()), " ")
+		}
+	}
+	return ""
 }
 
 func (fe *FnEnc) srcText(pos token.Pos, kind string) string {
